@@ -1,0 +1,10 @@
+//go:build !unix
+
+package handler
+
+import "io/fs"
+
+// fileID is what the system identifies a file by (not known here: os.SameFile is used instead).
+type fileID struct{}
+
+func fileIDOf(fs.FileInfo) (fileID, bool) { return fileID{}, false }
